@@ -225,6 +225,23 @@ CHECKS['C09'] = dict(
          'renamed instance are opaque (the "-N" numbering is not proved); registry.async_add (name uniqueness: C03) and the conflict '
          'lookup current_entry_with_name_and_alias (C05) are callee contracts verified in those checks; ensure_future applies the '
          'coroutine\'s contract at the call; seed C09-probe-wait-continue-dropped is reported UNDECIDED (exit 2), not as a violation')
+CHECKS['C08'] = dict(
+    category='other',
+    text='NOT a proof of the whole statement: its second clause (nothing of a withdrawn service is transmitted with a non-zero TTL '
+         'afterwards) is violated on the pinned tree by answers already queued in the reply queues when the service is unregistered '
+         '(known finding F7, reproduced on the real objects in every run and printed as KNOWN-FINDING; not repaired, see DESIGN 9.2). '
+         'Proved (deductive, all inputs): goodbye completeness - the record builders keep memo_ok and apply the override TTL; '
+         '_add_broadcast_answer / generate_service_broadcast put PTR, SRV, TXT and (iff asked) every address and NSEC record into the '
+         'message, with TTL 0 on every record when the override is 0; _async_broadcast_service sends that message three times at the '
+         'given spacing; async_unregister_service removes the service from the registry FIRST, then asks the registry for other '
+         'services on the host, withdraws the address/NSEC records exactly when there is none, with TTL 0 and 125 ms spacing '
+         '(call-site obligations on the actual arguments); generate_unregister_all_services withdraws every registered service with '
+         'its address records and empties the registry only afterwards. Bounded (concrete contract evaluation on real registries with '
+         'shared hosts and mixed address families): the message is complete per service, incl. the assumed address/NSEC builder.',
+    design_ref='DESIGN.md section 4 C08 and 9.2 (F7)',
+    note='registry operations by their C03 contracts; get_address_and_nsec_records/_dns_addresses assumed by contract (checked only '
+         'by the bounded harness); an announcement task still sleeping when its service is unregistered (register-then-unregister '
+         'within 450 ms) can follow the last goodbye: outside the claim; A5 await model')
 NOT_APPLICABLE = {
     'C07': 'end-to-end liveness over several hosts and lossy delivery: no per-function contract can express it '
            '(DESIGN.md section 6)',
